@@ -24,6 +24,7 @@ structure SameBut (env env' : Env) (n : Nat) (okFound : Bool) (okAt : Int → Bo
   filesize : env'.filesize = env.filesize
   ext : env'.ext = env.ext
   rules : env'.rules = env.rules
+  disabled : env'.disabled = env.disabled
   other : ∀ m, m ≠ n → env'.strs.getD m [] = env.strs.getD m []
   found : okFound = true → (env'.strs.getD n []).isEmpty = (env.strs.getD n []).isEmpty
   at_ : ∀ x, okAt x = true → ((env'.strs.getD n []).any fun m => m.1 == x) = ((env.strs.getD n []).any fun m => m.1 == x)
@@ -53,6 +54,7 @@ theorem sameBut_restrictAt (env : Env) (n : Nat) (k : Int) :
   filesize := rfl
   ext := rfl
   rules := rfl
+  disabled := rfl
   other := fun m hm => by rw [restrictAt_getD]; simp [hm]
   found := fun h => by cases h
   at_ := fun x hx => by
@@ -67,6 +69,7 @@ theorem sameBut_firstOnly (env : Env) (n : Nat) : SameBut env (firstOnly env n) 
   filesize := rfl
   ext := rfl
   rules := rfl
+  disabled := rfl
   other := fun m hm => by rw [firstOnly_getD]; simp [hm]
   found := fun _ => by
     rw [firstOnly_getD]
@@ -182,7 +185,7 @@ theorem agree {env env' : Env} {n : Nat} {okFound : Bool} {okAt : Int → Bool} 
   | .undefOf _, _, _, _, _ => by simp only [eval]
   | .tt, _, _, _, _ => by simp only [eval]
   | .ff, _, _, _, _ => by simp only [eval]
-  | .ruleRef _, _, _, _, _ => by simp only [eval, S.rules]
+  | .ruleRef _, _, _, _, _ => by simp only [eval, S.rules, S.disabled]
   | .count s, cn, l, hc, h => by
     simp only [usesOk, Bool.not_eq_true'] at h
     simp only [eval, matchesOf_other S l cn hc s h]
@@ -254,10 +257,12 @@ theorem agree {env env' : Env} {n : Nat} {okFound : Bool} {okAt : Int → Bool} 
     simp only [eval, agree S p cn l hc h.2, countFound_eq S set h.1]
   | .ofRules q qe set, cn, l, hc, h => by
     simp only [usesOk] at h
-    simp only [eval, agree S qe cn l hc h, S.rules]
+    have hm : env'.ruleMatched = env.ruleMatched := by funext k; simp only [Env.ruleMatched, S.rules, S.disabled]
+    simp only [eval, agree S qe cn l hc h, hm]
   | .pctRules p set, cn, l, hc, h => by
     simp only [usesOk] at h
-    simp only [eval, agree S p cn l hc h, S.rules]
+    have hm : env'.ruleMatched = env.ruleMatched := by funext k; simp only [Env.ruleMatched, S.rules, S.disabled]
+    simp only [eval, agree S p cn l hc h, hm]
   | .ofStrIn q qe set lo hi, cn, l, hc, h => by
     simp only [usesOk, Bool.and_eq_true, Bool.not_eq_true'] at h
     have hset : ∀ (f : List (Int × Int) → Bool),
